@@ -23,7 +23,7 @@ impl C19 {
 }
 
 const BPPS: [u16; 3] = [16, 32, 15];
-const DATA_KINDS: [&str; 6] = ["raw-exact", "raw-short", "raw-long", "rle-valid", "garbage", "rle-truncated"];
+const DATA_KINDS: [&str; 7] = ["raw-exact", "raw-short", "raw-long", "rle-valid", "garbage", "rle-truncated", "raw-rows-without-padding"];
 
 #[derive(Debug)]
 struct Case {
@@ -112,6 +112,17 @@ fn make_data(c: &Case) -> (Vec<u8>, bool, Option<Vec<u32>>) {
                     }
                     (d, true, Some(px))
                 }
+                6 => {
+                    // rows sent without the 4-byte padding: w*h*2 bytes (shorter than the padded size for odd widths)
+                    let mut r = vec![];
+                    for row in (0..h).rev() {
+                        for p in &img[row * w..(row + 1) * w] {
+                            r.extend_from_slice(&p.to_le_bytes());
+                        }
+                    }
+                    let same = r.len() == raw.len();
+                    (r, false, if same { Some(px) } else { None })
+                }
                 _ => (vec![0xFF, 0x00, 0x13, 0xA5, 0xF0], true, None),
             }
         }
@@ -145,10 +156,16 @@ fn make_data(c: &Case) -> (Vec<u8>, bool, Option<Vec<u32>>) {
                     }
                     (d, true, Some(px))
                 }
+                6 => {
+                    // half of the rows only
+                    let r = raw[..raw.len() / 2].to_vec();
+                    let same = r.len() == raw.len();
+                    (r, false, if same { Some(px) } else { None })
+                }
                 _ => (vec![0x10, 0xFF, 0x00, 0x13], true, None),
             }
         }
-        _ => (vec![0; w * h * 2], c.kind >= 3, None),
+        _ => (vec![0; w * h * 2], c.kind >= 3 && c.kind != 6, None),
     }
 }
 
@@ -180,7 +197,7 @@ impl Prop for C19 {
         json!({"idx": idx, "window": [c.win_w, c.win_h], "rect": {"left": c.l, "top": c.t, "right": c.r, "bottom": c.b}, "image": [c.img_w, c.img_h], "bpp": c.bpp, "data": DATA_KINDS[c.kind]})
     }
     fn rule(&self) -> String {
-        "cases = (window WxH in 1..3 squared (1..4 in thorough), rectangle left/top/right/bottom each in {0..5, 65535} ({0..6, 32768, 65535} in thorough) (inside, outside, inverted), image width/height each in 0..5, depth in {16,32,15}, data in {raw exact, raw one byte short, raw 4 bytes long, valid RLE, garbage, RLE truncated}) — the full product. Executed on the unmodified fast_bitmap_transfer under a red-zone allocator. Oracle: no panic; canary zones of every heap block intact; when the call succeeds for a rectangle inside the window with a known image, the buffer equals the reference blit (rows top..bottom, columns left..right from image rows 0.., columns 0..) and every other cell keeps its sentinel; when the call fails the buffer may hold a prefix of the rows but never a foreign value. Non-trivial: the call reached the copy loop (decompression succeeded).".into()
+        "cases = (window WxH in 1..3 squared (1..4 in thorough), rectangle left/top/right/bottom each in {0..5, 65535} ({0..6, 32768, 65535} in thorough) (inside, outside, inverted), image width/height each in 0..5, depth in {16,32,15}, data in {raw exact, raw one byte short, raw 4 bytes long, valid RLE, garbage, RLE truncated, raw rows without their 4-byte padding (16 bpp) / half the rows (32 bpp)}) — the full product. Executed on the unmodified fast_bitmap_transfer under a red-zone allocator. Oracle: no panic; canary zones of every heap block intact; when the call succeeds for a rectangle inside the window with a known image, the buffer equals the reference blit (rows top..bottom, columns left..right from image rows 0.., columns 0..) and every other cell keeps its sentinel; when the call fails the buffer may hold a prefix of the rows but never a foreign value. Non-trivial: the call reached the copy loop (decompression succeeded).".into()
     }
     fn assumptions(&self) -> Vec<String> {
         vec![
